@@ -385,6 +385,29 @@ def run_case(case):
             if e is None:
                 err = sp.sep(ra, dec, b1[0], b1[1])
                 _rel("rotate-inverse", np.all(err <= 1e-5), "single-axis rotation %r not undone by its inverse (%.3g deg)" % (a3, float(err.max())), wit, (k,))
+        # chained conversions agree with the direct one: the Euler rotation is the composition of its three single-axis
+        # rotations applied in the order phi, theta, psi (whatever sign convention the routine uses for each axis)
+        c1, e1 = probe.attempt(co.rotate, float(ang[0]), 0.0, 0.0, ra, dec)
+        if e1 is None:
+            c2, e2 = probe.attempt(co.rotate, 0.0, float(ang[1]), 0.0, c1[0], c1[1])
+            if e2 is None:
+                c3, e3 = probe.attempt(co.rotate, 0.0, 0.0, float(ang[2]), c2[0], c2[1])
+                if e3 is None:
+                    err = sp.sep(ol, ob, c3[0], c3[1])
+                    _rel("rotate-chained", np.all(err <= 1e-5), "rotate(phi, theta, psi) differs from the chain of its single-axis rotations by %.3g deg" % float(err.max()),
+                         wit, (tuple((np.asarray(ang) == 0).tolist()),))
+        # mixed zero / non-zero angles (a zero angle must not change what the other two do)
+        for zi in range(3):
+            a0 = [float(x) for x in ang]
+            a0[zi] = [0.0, -0.0][int(rng.integers(0, 2))]
+            z1, ez = probe.attempt(co.rotate, a0[0], a0[1], a0[2], ra, dec)
+            a1 = list(a0)
+            a1[zi] = 1e-9
+            z2, ez2 = probe.attempt(co.rotate, a1[0], a1[1], a1[2], ra, dec)
+            if ez is None and ez2 is None:
+                err = sp.sep(z1[0], z1[1], z2[0], z2[1])
+                _rel("rotate-zero-angle", np.all(err <= 1e-5), "rotate with angle %d exactly 0 differs from the same call with 1e-9 deg by %.3g deg (angles %r)" % (
+                    zi, float(err.max()), a0), wit, (zi,))
         s, e = probe.attempt(co.rotate, ang[0], ang[1], ang[2], float(ra[0]), float(dec[0]))
         if e is None:
             _rel("rotate-scalar", np.ndim(s[0]) == 0 and abs(s[0] - ol[0]) <= 1e-12 and abs(s[1] - ob[0]) <= 1e-12,
